@@ -1,6 +1,6 @@
 (* Case decoding for the binary-matrix group (C16); see harness/src/bitmat.rs. *)
 From Coq Require Import NArith List Bool.
-From RQ Require Import Base.Outcome Spec.BitMatrix Model.DenseMatrix.
+From RQ Require Import Base.Outcome Base.Ints Spec.BitMatrix Model.DenseMatrix Model.SparseMatrix.
 Import ListNotations.
 Open Scope N_scope.
 
@@ -23,10 +23,16 @@ Definition run_bm_dense (fixed : bool) (a : list N) : list N :=
 Definition run_bm_spec (a : list N) : list N :=
   1 :: flat_rows (bm_run (nth 0 a 0) (nth 1 a 0) (split_ops (N.to_nat (nth 3 a 0)) (skipn 4 a))).
 
+(* [h, w, hint, nops, ops...] on the sparse model *)
+Definition run_bm_sparse (m : mode) (a : list N) : list N :=
+  1 :: flat_rows (sm_run m (nth 0 a 0) (nth 1 a 0) (nth 2 a 0) (split_ops (N.to_nat (nth 3 a 0)) (skipn 4 a))).
+
 Definition run_mat (f : N) (a : list N) : list N :=
   match f with
   | 500 => run_bm_dense true a
   | 501 => run_bm_dense false a
+  | 502 => run_bm_sparse Release a
+  | 503 => run_bm_sparse Checked a
   | 550 => run_bm_spec a
   | _ => [0; 99]
   end.
